@@ -145,6 +145,32 @@ CHECKS: dict[str, dict] = {
         technique="TLC-enumerated mutation graph replayed into the code + TLC evaluation of the well-formedness predicate on every result",
         ref="5-C05",
     ),
+    "C09": dict(
+        engine="spec/Workspace.tla, spec/WorkspaceTrace.tla",
+        text="Workspace.tla models files, exclusions, the on-disk cache (none / readable report with version, entries, honesty / damaged) and the commands, with "
+             "Scan as coded; TLC checks ScanEqualsFresh, ReuseOnlyIfUnchanged, ForeignNeverReused, RefuseForeign, ScanLeavesValidCache, DamagedCacheIsIgnored "
+             "and CacheHonestUnlessTampered over every history of up to 6-7 operations (write, delete, rename, touch, swap, change exclusions, foreign-version "
+             "cache, altered checksum / key, taint, damage, scan, report, findings). Every history of length 4 over all operations and every history of "
+             "length 5 around the version guard is replayed on a real directory through scan_command / report_command / findings_command; cache reuse is "
+             "observed by tainting entries; every step is judged by TLC on the projected state before and after it (WorkspaceTrace.tla), as are random longer histories.",
+        note="Each command starts from an empty Configuration.exclude (fresh CLI process); three Python contents with distinct results; payload tampering that "
+             "keeps the checksum is outside the property and used only as the reuse probe. " + BASE_NOTE,
+        technique="TLA+ model checked by TLC + exhaustive replay of bounded histories on real directories + TLC trace validation",
+        ref="5-C09",
+    ),
+    "C10": dict(
+        engine="spec/Workspace.tla, spec/WorkspaceTrace.tla",
+        text="Workspace.tla's Damage action interleaved with edits and scans is model-checked (ScanLeavesValidCache, DamagedCacheIsIgnored); on real directories "
+             "the abstract damage is expanded to every byte offset at which the cache write can be cut short (two reference reports, about 2 200 offsets) and "
+             "to about 1 100 structural variants (scalars, lists, every key removed at every level, every value replaced by wrong types) plus empty / "
+             "whitespace / non-JSON files, cache directory without file or without marker files, stray partial files, and TLC-chosen sequences of faults, "
+             "edits and scans; every step is judged by TLC (WorkspaceTrace.tla): the scan completes, equals the fresh scan and leaves a valid cache of this version.",
+        note="A cut-short write leaves a prefix of the bytes; marker files need not be restored; a directory in place of the cache file is not in the property "
+             "and not generated. " + BASE_NOTE,
+        level="model_checking",
+        technique="TLA+ model checked by TLC + exhaustive crash-point / fault enumeration on real directories + TLC trace validation",
+        ref="5-C10",
+    ),
 }
 
 NOT_YET = "check not built yet in this round (see DESIGN.md section 10 for the order of work)"
